@@ -128,10 +128,25 @@ def gen_conv_cases(rng, tier, space, channel, signed_bcoh=False, force_pos=False
                 if rng.random() < 0.4:
                     dy[rng.randrange(n)] = float("nan")
                 dk = "nonfinite entries"
+            # every method sees, whatever the seed: the uncertainty by keyword (rep 1), integer-typed function and uncertainty arrays
+            # (rep 2), a weak signal around the conventional value (rep 3)
+            forced_ints = False
+            if rep % 6 == 1 and n >= 1 and (dy is None or dk in ("nonfinite entries", "extreme magnitudes")):
+                dk, dy = "pos", [rng.logu(1e-6, 1.0) for _ in range(n)]
+            if rep % 6 == 2 and n >= 1:
+                vk, y = "ints", values(rng, n, "ints")
+                dk, dy = "ints", [float(rng.randint(0, 5)) for _ in range(n)]
+                forced_ints = True
+            if rep % 6 == 3 and n >= 1:
+                base_ = 1.0 if names[a] in ("S", "g") else 0.0
+                amp_ = rng.choice([1e-9, 1e-11, 1e-13])
+                vk, y = "tiny signal", [base_ + amp_ * rng.uniform(-2, 2) for _ in range(n)]
             m = material(rng, signed_bcoh)
             # integer-typed arrays with the same values must behave like floating ones
             idt = [False, False, False]
-            if vk == "ints" and rng.random() < 0.7:
+            if forced_ints:
+                idt = [False, True, True]
+            elif vk == "ints" and rng.random() < 0.7:
                 idt[1] = True
                 if rng.random() < 0.5:
                     x = [float(rng.randint(0, 9)) if force_pos is False else float(rng.randint(1, 9)) for _ in range(n)]
